@@ -408,6 +408,9 @@ func (p *peer) act(c net.Conn, pc *peerCipher, b behaviour) bool {
 			items = itemBytes(1, 0x11, nil)
 		}
 		c.Write(enc(frameBytes(items, true, now.Unix(), int32(now.Nanosecond()))))
+	case "wrongLength":
+		// a fixed-size item (Bool) that announces two bytes, checksum correct
+		c.Write(enc(frameBytes(itemBytes(0x00800001, 1, []byte{1, 0}), true, now.Unix(), int32(now.Nanosecond()))))
 	case "empty":
 		c.Write(enc(frameBytes(nil, true, now.Unix(), int32(now.Nanosecond()))))
 	case "trailing":
